@@ -108,7 +108,19 @@ def writer_leg(ctx, work):
                        "owned_bad/user_bad": det[blk] if 0 <= blk < len(det) else None, "trace_head": t[:3]})
 
 
+def lemmas(ctx):
+    """Thorough tier: the arithmetic lemmas that extrapolate the bounded model to all sizes, by Apalache (unbounded Int)."""
+    if ctx.quick():
+        return
+    status, wall = tlc.apalache_lemmas(ctx.outdir)
+    ctx.notes["apalache_ArithLemmas"] = {"status": status, "wall_s": round(wall, 1),
+                                         "lemmas": ["SubblockPlan", "PaddingRule", "PieceCount"]}
+    if status == "counterexample":
+        ctx.violation("ArithLemmas", "apalache:counterexample", {"action": "Lemmas"}, {"see": "apalache-mc check --inv=Lemmas --length=0 ArithLemmas.tla"})
+
+
 def run(ctx):
+    lemmas(ctx)
     ctx.assume("independent GUPPI framing parser/writer in /verif/harness/guppi.py; directory listing order substituted "
                "through raw_utils.glob.glob; header values compared at 1e-12 relative (card text formatting)")
     work = os.path.join(ctx.outdir, "raw04")
